@@ -38,6 +38,7 @@ from cassandra.util import is_little_endian
 import_datetime()
 
 DEF DAY_IN_SECONDS = 86400
+DEF DAY_IN_MILLIS = 86400000
 
 DATETIME_EPOC = datetime.datetime(1970, 1, 1)
 
@@ -60,3 +61,17 @@ cdef datetime_from_timestamp(double timestamp):
     microseconds += <int>tmp
 
     return DATETIME_EPOC + timedelta_new(days, seconds, microseconds)
+
+
+cdef datetime_from_ms_timestamp(int64_t timestamp):
+    # integer arithmetic only: float seconds cannot hold microseconds for
+    # instants more than a few centuries away from the epoch
+    cdef int64_t days = timestamp // DAY_IN_MILLIS
+    cdef int64_t millis = timestamp - days * DAY_IN_MILLIS
+    if millis < 0:
+        millis += DAY_IN_MILLIS
+        days -= 1
+    if days > 999999999 or days < -999999999:
+        raise OverflowError("date value out of range")
+
+    return DATETIME_EPOC + timedelta_new(<int> days, <int> (millis // 1000), <int> (millis % 1000) * 1000)
